@@ -606,10 +606,15 @@ def _peak_is_too_narrow(
 ) -> bool:
     fwhm = peak.fwhm(popt)
     coord = data.coords[data.dim]
-    center_idx = np.argmin(abs(coord.values - popt['peak_loc'].values))
+    center_idx = int(np.argmin(abs(coord.values - popt['peak_loc'].values)))
     # Average of bins around center index.
     # Bins don't normally vary quickly, so this is a good approximation.
-    bin_width = (coord[center_idx + 1] - coord[center_idx - 1]) / 2
+    # At the first and last point, there is only one adjacent bin.
+    # (The near-edge check uses the smallest step, so a peak on a non-uniform
+    # grid can get here with its center at the first or last point.)
+    lo = max(center_idx - 1, 0)
+    hi = min(center_idx + 1, len(coord) - 1)
+    bin_width = (coord[hi] - coord[lo]) / max(hi - lo, 1)
     return (fwhm < fit_requirements.min_peak_width_factor * bin_width).value
 
 
